@@ -336,13 +336,15 @@ def _restore(pm, saved):
         pm.sleep = saved["sleep"]
 
 
-def session_events(driver, cfg, script, send_fault=None, lose=None, both=False, mode="rec"):
+def session_events(driver, cfg, script, send_fault=None, lose=None, both=False, mode="rec", silent=False):
     """Run client operations with a recording policer; returns the interleaved event string.
     lose = index of the datagram whose reply is lost once (the caller retries after the TimeoutError);
     both = the session is also given limit_rps (the explicit policer must still be the one consulted)."""
     pm = policer_mod()
     events = []
     tmo = 0.15 if lose is not None else 3.0
+    if silent:
+        tmo = 0.002  # much shorter than the interval: every call times out before the next slot
     extra = {"limit_rps": 100000} if both else {}
     seen = {"n": 0}
     usm_agent = None
@@ -386,6 +388,8 @@ def session_events(driver, cfg, script, send_fault=None, lose=None, both=False, 
         seen["n"] += 1
         if lose is not None and seen["n"] - 1 == lose:
             return []
+        if silent:
+            return []
         if usm_agent is not None:
             return usm_agent(data, idx)
         req = drivers.open_request(cfg, data, strict=False, check_mac=False)
@@ -413,6 +417,11 @@ def session_events(driver, cfg, script, send_fault=None, lose=None, both=False, 
                     s.__exit__(None, None, None)
                 elif op == "get":
                     s.get(rb.oid_str(MIB[0]))
+                elif op in ("get_t", "get_many_t"):
+                    try:
+                        s.get(rb.oid_str(MIB[0])) if op == "get_t" else s.get_many([rb.oid_str(MIB[0])])
+                    except TimeoutError:
+                        pass
                 elif op == "get_many":
                     s.get_many([rb.oid_str(MIB[0]), rb.oid_str(MIB[1])])
                 elif op == "get_many_one":
@@ -456,6 +465,11 @@ def session_events(driver, cfg, script, send_fault=None, lose=None, both=False, 
                     await s.__aexit__(None, None, None)
                 elif op == "get":
                     await s.get(rb.oid_str(MIB[0]))
+                elif op in ("get_t", "get_many_t"):
+                    try:
+                        await (s.get(rb.oid_str(MIB[0])) if op == "get_t" else s.get_many([rb.oid_str(MIB[0])]))
+                    except TimeoutError:
+                        pass
                 elif op == "get_many":
                     await s.get_many([rb.oid_str(MIB[0]), rb.oid_str(MIB[1])])
                 elif op == "get_many_one":
@@ -500,7 +514,7 @@ def work_sessions(chunk):
     res = common.Result()
     for case in chunk:
         cfg = Cfg.from_desc(case["cfg"])
-        ev = session_events(case["driver"], cfg, case["script"], case.get("send_fault"), case.get("lose"), case.get("both", False), case.get("mode", "rec"))
+        ev = session_events(case["driver"], cfg, case["script"], case.get("send_fault"), case.get("lose"), case.get("both", False), case.get("mode", "rec"), case.get("silent", False))
         res.count("session_scripts")
         res.count("calls", ev.count("D"))
         res.distinct()
@@ -537,7 +551,7 @@ def replay(case):
         rels, delays, prob = run_path(case["delta"], case["t0"], case["gaps"])
         return {"releases": rels, "delays": delays, "problem": prob}
     if "script" in case:
-        return {"events": session_events(case["driver"], Cfg.from_desc(case["cfg"]), case["script"], case.get("send_fault"), case.get("lose"), case.get("both", False), case.get("mode", "rec"))}
+        return {"events": session_events(case["driver"], Cfg.from_desc(case["cfg"]), case["script"], case.get("send_fault"), case.get("lose"), case.get("both", False), case.get("mode", "rec"), case.get("silent", False))}
     r = common.Result()
     work_misc([0])
     return {"misc": "re-run"}
@@ -602,6 +616,10 @@ def run(tier):
             for sc in (["get", "get_many", "get"], ["getnext"], ["fetch"]):
                 sess.append({"driver": driver, "cfg": cfg.describe(), "script": pre + sc, "mode": "limit"})
             sess.append({"driver": driver, "cfg": cfg.describe(), "script": pre + ["get", "getnext", "get_many"], "mode": "delay"})
+        # a dead agent and a time-out shorter than the interval: requests that time out still use up their slots
+        for cfg in (Cfg("v2c"), Cfg("v3")):
+            for sc in (["get_t"] * 6, ["get_many_t"] * 5, ["get_t", "get_t", "get_many_t", "get_t", "get_t", "get_many_t"]):
+                sess.append({"driver": driver, "cfg": cfg.describe(), "script": sc, "mode": "limit", "silent": True})
         # one session object entered again and again (for oid in oids: with session: session.get(oid)): same limiter throughout
         for cfg in (Cfg("v2c"), Cfg("v1")):
             sess.append({"driver": driver, "cfg": cfg.describe(), "script": ["enter", "get", "exit", "enter", "get", "exit", "enter", "get", "exit", "enter", "get_many"], "mode": "limit"})
